@@ -156,7 +156,8 @@ class SYS(Prop):
                 return f"select v from {tgt} order by v", None
             if k == "fail":
                 return {"notable": "select * from vt_no_such_table", "nocol": "select vt_no_such_column from t",
-                        "nosch": "select * from db1.vt_no_such_schema.t"}[a["why"]], None
+                        "nosch": "select * from db1.vt_no_such_schema.t", "arity": "insert into t values (7, 8)",
+                        "ragged": "insert into t values (7), (8, 9)"}[a["why"]], None
             if k == "nop":
                 # (the server's instance has no no-op patterns: a statement fakesnow itself answers without the engine)
                 return ("alter table t cluster by (v)" if http else "call vt_refresh()"), None
@@ -206,6 +207,18 @@ class SYS(Prop):
                         views.append(sorted(back.get(r[0], str(r[0])) for r in p.fetchall()))
                     except Exception as e:
                         views.append([_err(e)])
+                usable = []
+                for s in ("S1", "S2"):
+                    try:
+                        p.execute(f"select count(*) from db1.{phys[s]}.u")
+                        if p.fetchall() == [(0,)]:
+                            usable.append(s)
+                        else:
+                            usable.append("rows?")
+                    except Exception as e:
+                        if _err(e) != "err:missing":
+                            usable.append(_err(e))
+                views.append(usable)
                 cat.append(views)
             return {"ctx": ctx, "var": var, "vis": vis, "cat": cat}
 
@@ -217,7 +230,7 @@ class SYS(Prop):
                 op["how"] = rng.choice(("x", "s", "b"))
             elif op["k"] in ("upd", "ins2"):
                 op["run"] = rng.choice(("x", "s", "b"))
-            elif op["k"] in ("sel", "fetch", "restart"):
+            elif op["k"] in ("sel", "fetch", "restart", "emfail"):
                 pass
             elif op["k"] not in ("script", "descr", "begin", "commit", "rollback"):
                 op["how"] = rng.choice(("x", "x", "s"))
@@ -235,6 +248,14 @@ class SYS(Prop):
                     fs = fakesnow.instance.FakeSnow(db_path=pdir, nop_regexes=[NOP_PATTERN], create_schema_on_connect=op["cs"])
                     open_sessions()
                     res = ["ok"]
+                elif k == "emfail":
+                    cur = longcur[c] if op["u"] == 1 else conn.cursor()
+                    tgt = "t" if op["tgt"] == "u" else f"db1.{phys[op['tgt']]}.t"
+                    try:
+                        cur.executemany(f"insert into {tgt} values (%s)", [(98, 99), (97,)])
+                        res = ["ok?"]
+                    except Exception as e:
+                        res = ["err:other" if not _err(e).startswith("err:") else _err(e)]
                 elif k == "sel":
                     cur = rescur[c]
                     cur.execute(sql_of(op, False)[0])
@@ -278,6 +299,8 @@ class SYS(Prop):
                     res = [outcome(op, cur)]
             except Exception as e:
                 res = [_err(e)]
+                if k == "fail" and op.get("why") == "ragged" and res != ["err:missing"]:
+                    res = ["err:other"]
             ev.append({"op": op, "obs": {"res": res, "got": got, "snap": snapshot()}})
         for cn in conns.values():
             try:
@@ -383,7 +406,7 @@ def attribute(ops: list[dict], verdict: dict) -> str:
         return "C03" if op.get("tgt") == "u" and _created_elsewhere(got, wants) else "C09"
     if "cat" in diff and "vis" not in diff:
         return "C09"
-    if k in ("ins", "del", "upd", "ins2", "delall"):
+    if k in ("ins", "del", "upd", "ins2", "delall", "emfail"):
         if op.get("src") == "var" and ("res" in diff) and not intx:
             return "C15"
         if op.get("tgt") == "u" and "vis" in diff and not intx:
